@@ -36,3 +36,14 @@ fn control_count_from_end(input: &str) -> usize {
 pub fn control_char_index_via_helper(input: &str) -> &str {
     &input[..control_count_from_end(input)]
 }
+
+/// E-SITE controls: forbidden process / filesystem APIs
+pub fn control_exit(code: i32) -> ! {
+    std::process::exit(code)
+}
+pub fn control_remove(path: &std::path::Path) -> std::io::Result<()> {
+    std::fs::remove_dir_all(path)
+}
+pub fn control_forget(v: Vec<u8>) {
+    std::mem::forget(v)
+}
